@@ -2079,7 +2079,7 @@ class Executor:
             s.paths_assume += 1
         elif e.kind == 'violation':
             s.paths_viol += 1
-        if (st.symbranches > 0 or st.sym_oracles > 0 or st.nsym > 0) and st.oracles > 0:
+        if (st.symbranches > 0 or st.sym_oracles > 0 or st.nsym > 0 or len(st.threads) > 1) and st.oracles > 0:
             s.nontrivial += 1
         self.covers |= st.covers
         if len(self.samples) < 4 and e.kind == 'ok':
